@@ -171,7 +171,13 @@ fn gen_lcs<S: Scheme>(tx: &Tx<S>, allow_bounded_mix: bool, rng: &mut ChaCha20Rng
         }
     }
     let mut evals = Evaluations::new();
-    for (l, (_, z)) in &qs {
+    let known = qs.clone();
+    if S::default_combinations() && rng.next_u32() % 3 == 0 {
+        // an entry naming none of the combinations, sorting before all of them: skipped by the default implementation
+        let (pl, z) = known.iter().next().map(|(_, (pl, z))| (pl.clone(), z.clone())).unwrap();
+        qs.insert(("!spare".to_string(), (pl, z)));
+    }
+    for (l, (_, z)) in &known {
         let lc = lcs.iter().find(|lc| &lc.label == l).unwrap();
         evals.insert((l.clone(), z.clone()), lc_value::<S>(tx, lc, z));
     }
@@ -341,7 +347,10 @@ fn case<S: Scheme>(ctx: &mut Ctx, rng: &mut ChaCha20Rng) {
             // and hand those (now false w.r.t. the committed polynomials) to the verifier.
             let mut pq: Vec<(String, PtOf<S>)> = Vec::new();
             for (l, (_, z)) in &ls.qs {
-                let lc = ls.lcs.iter().find(|x| &x.label == l).unwrap();
+                let lc = match ls.lcs.iter().find(|x| &x.label == l) {
+                    Some(lc) => lc,
+                    None => continue, // spare entry naming no combination
+                };
                 for (_, t) in lc.iter() {
                     if let LCTerm::PolyLabel(pl) = t {
                         if !pq.contains(&(pl.clone(), z.clone())) {
@@ -360,7 +369,10 @@ fn case<S: Scheme>(ctx: &mut Ctx, rng: &mut ChaCha20Rng) {
                 *shifted.get_mut(&pq[j]).unwrap() += nz::<S>(rng);
                 let mut ev2 = Evaluations::new();
                 for (l, (_, z)) in &ls.qs {
-                    let lc = ls.lcs.iter().find(|x| &x.label == l).unwrap();
+                    let lc = match ls.lcs.iter().find(|x| &x.label == l) {
+                        Some(lc) => lc,
+                        None => continue,
+                    };
                     let mut v = FOf::<S>::zero();
                     for (c, t) in lc.iter() {
                         match t {
